@@ -418,7 +418,7 @@ def run_C05(run):
     shards = ["C05/P_C05_w16_%d.v" % k for k in range(8)]
     run.prove([], ["C05/A_C05_defs.v", "C05/P_C05_count.v"], ["C05/P_C05_w8.v", "C05/P_C05_general.v", "C05/P_C05_reverse.v", "C05/P_C05_msb.v", "C05/P_C05_insert.v"] + shards, "C05/Properties_C05.v", timeout=1500)
     run.run_corr("impl_C05.cpp", [run.seed, run.tier])
-    fails = oracle_sweep(run, "C05", [("all", [])], run.tier, opt="-O1")
+    fails = oracle_sweep(run, "C05", [("all", []), ("simd", ["-msse2", "-DGLM_FORCE_INTRINSICS", "-DGLM_FORCE_DEFAULT_ALIGNED_GENTYPES"]), ("avx2", ["-mavx2", "-DGLM_FORCE_INTRINSICS", "-DGLM_FORCE_DEFAULT_ALIGNED_GENTYPES"])], run.tier, opt="-O1")
     run.fails = run.triage(fails)
     run.assumptions = ["bitCount, findLSB, findMSB, bitfieldReverse, bitfieldInsert and unsigned bitfieldExtract are theorems for every value of every 8/16/32/64-bit element type, about the hand model IntFn.v (the ladders with the masks and shifts of func_integer.inl); the model is tied to the compiled code by the correspondence check and the bit-by-bit oracle (testing)",
                        "the vector overloads are tied to the scalar model by the correspondence driver (one lane carries the operand) and by C01's lift theorem for bitfieldExtract/Insert/Reverse",
